@@ -167,6 +167,8 @@ def check_wrap(cfg, crate, rep):
         # the buffer it fills may take part in computing the value that is written (no re-encoding, trimming, padding)
         def _sig_ok(c_):
             last_ = c_.split("::")[-1]
+            if c_ in crate.bodies and ((crate.bodies[c_].get("hir") or {}).get("ty") or "") in ("error::Error", "Error"):
+                return True         # a local constructor of the crate's error value (handed to map_err / or_else)
             return last_ in ("sign", "sign_der", "_err", "map_err", "as_ref", "as_slice", "to_vec", "from_elem", "with_capacity", "new", "rsa_key_pair_public_modulus_len", "public_modulus_len", "public_key", "modulus_len", "deref", "into", "from", "clone", "as_mut_slice", "as_mut") \
                 and not c_.startswith(("yasna::", "pem::"))
         extra_ = sorted(c_ for c_ in calls_of(a0) if not _sig_ok(c_))
